@@ -59,17 +59,18 @@ func updatesOf(p any) osm.Updates {
 	panic("parent type")
 }
 
+// cloneParent makes the copy the updates are applied on: a struct copy with
+// its own child list. The update list is shared with the original, which must
+// not notice (checked after the time travel).
 func cloneParent(p any) any {
 	switch x := p.(type) {
 	case *osm.Way:
 		c := *x
 		c.Nodes = append(osm.WayNodes(nil), x.Nodes...)
-		c.Updates = append(osm.Updates(nil), x.Updates...)
 		return &c
 	case *osm.Relation:
 		c := *x
 		c.Members = append(osm.Members(nil), x.Members...)
-		c.Updates = append(osm.Updates(nil), x.Updates...)
 		return &c
 	}
 	panic("parent type")
@@ -392,7 +393,13 @@ func check(c Case) error {
 				}
 			}
 		}
+		var order []int
 		for tt := range times {
+			order = append(order, tt)
+		}
+		sort.Ints(order)
+		upsBefore := fmt.Sprint(updatesOf(par))
+		for _, tt := range order {
 			if tt < p.At || tt >= next(pi) {
 				continue
 			}
@@ -416,6 +423,9 @@ func check(c Case) error {
 					}
 				}
 			}
+		}
+		if now := fmt.Sprint(updatesOf(par)); now != upsBefore {
+			return harness.Failf("C11/apply-on-copy-changes-original", "parent v%d: applying updates on struct copies (own child list, shared update list) changed the annotated parent's update list:\n before %s\n after  %s", p.Ver, upsBefore, now)
 		}
 	}
 	return nil
